@@ -256,6 +256,98 @@ class Session(object):
         return out
 
 
+def _family_request(module, wasm, plan, script, imports_spec, mem_hash):
+    """request of the `family` command (several live instances of one module; see v8run.js)"""
+    req = {'cmd': 'family', 'wasm': bytes(wasm).hex(), 'mem_hash': bool(mem_hash), 'imports': [], 'script': [], 'tramps': {},
+           'plan': [dict(p) for p in plan]}
+    gl = (imports_spec or {}).get('globals', {})
+    for n, im in enumerate(module.imports):
+        e = {'module': im.module.hex(), 'field': im.field.hex(), 'kind': im.kind}
+        if im.kind == 'func':
+            ft = module.types[im.desc]
+            e['params'] = [A.VT_NAME[t] for t in ft.params]
+            e['results'] = [A.VT_NAME[t] for t in ft.results]
+        elif im.kind == 'global':
+            e['type'] = A.VT_NAME[im.desc.valtype]
+            e['mutable'] = im.desc.mutable
+            e['bits'] = str(gl.get(n, gl.get(str(n), 0)))
+        elif im.kind == 'memory':
+            e.update(min=im.desc.min, max=im.desc.max, shared=im.desc.shared)
+            mf = (imports_spec or {}).get('mem_fill') or {}
+            if mf.get(n, mf.get(str(n))):
+                e['fill'] = [[int(o), str(h)] for o, h in mf.get(n, mf.get(str(n)))]
+        else:
+            e.update(min=im.desc.limits.min, max=im.desc.limits.max)
+        req['imports'].append(e)
+    exports = {}
+    for ex in module.exports:
+        if ex.kind == 'func':
+            exports.setdefault(bytes(ex.name), module.func_sig(ex.index))
+    for inst, name, args in script:
+        nb = name.encode('utf-8') if isinstance(name, str) else bytes(name)
+        c = {'inst': int(inst), 'name': nb.hex(), 'args': [[t if isinstance(t, str) else A.VT_NAME[t], str(b)] for t, b in args], 'sig': None}
+        sig = exports.get(nb)
+        if sig is not None:
+            c['sig'] = {'params': [A.VT_NAME[t] for t in sig.params], 'results': [A.VT_NAME[t] for t in sig.results]}
+            if any(t in (A.F32, A.F64) for t in sig.params + sig.results):
+                k = _sig_key(sig)
+                if k not in req['tramps']:
+                    req['tramps'][k] = trampoline(sig).hex()
+        req['script'].append(c)
+    return req
+
+
+def _family_result(module, rep):
+    import struct
+    out = RunResult()
+    inst = rep['instantiate']
+    out.instantiate = tuple(inst[:2])
+    if len(inst) > 2:
+        out.messages.append(inst[2])
+    for r in rep['results']:
+        if r[0] == 'val':
+            out.results.append(('val', [(t, int(b)) for t, b in r[1]]))
+        elif r[0] == 'trap':
+            out.results.append(('trap', r[1]))
+            out.messages.append(r[2])
+        elif r[0] == 'skip':
+            out.results.append(('skip',))
+        else:
+            out.results.append(('error', r[1]))
+    out.host_log = [(i, [(t, int(b)) for t, b in a]) for i, a in rep['host_log']]
+    out.mem = rep.get('mem')
+    gtypes = {}
+    gts = module.global_types()
+    for ex in module.exports:
+        if ex.kind == 'global':
+            gtypes[ex.name] = gts[ex.index].valtype
+    for k, (t, b) in rep.get('globals', {}).items():
+        name = bytes.fromhex(k)
+        b = int(b)
+        if t == 'num' and name in gtypes:
+            x = struct.unpack('<d', struct.pack('<Q', b))[0]
+            vt = gtypes[name]
+            if vt == A.I32:
+                t, b = 'i32', int(x) & 0xFFFFFFFF
+            elif vt == A.F32:
+                t, b = 'f32', struct.unpack('<I', struct.pack('<f', x))[0]
+            else:
+                t = 'f64'
+        out.globals[name] = (t, b)
+    return out
+
+
+def run_family(wasm, plan, script, imports_spec=None, mem_hash=True, timeout=20.0, module=None):
+    """Several live instances of ONE module.  plan[k] = {'kind': 'new'} (instantiated before the script with its own import
+    objects) | {'kind': 'child', 'parent': p, 'at': j} (instantiated right before script entry j with the import objects of
+    instance p: imported memories / tables / globals are shared, host functions log per instance);
+    script = [(instance, export name, [(ty, bits)])].  Returns one RunResult per instance (`results` = its own calls, in order)."""
+    if module is None:
+        module = decode(bytes(wasm))
+    rep = session().request(_family_request(module, wasm, plan, script, imports_spec, mem_hash), timeout)
+    return [_family_result(module, r) for r in rep['instances']]
+
+
 _default = None
 
 
